@@ -1,6 +1,7 @@
 package checks
 
 import (
+	"bytes"
 	"fmt"
 	"os"
 	"path/filepath"
@@ -16,19 +17,26 @@ import (
 
 // SyncCase is one transfer: a source tree, a prior destination, a mode.
 type SyncCase struct {
-	Src    fsmodel.Tree `json:"src"`
-	Dst    fsmodel.Tree `json:"dst"`
-	Merge  bool         `json:"merge,omitempty"`
-	Mem    bool         `json:"mem,omitempty"`    // synthetic in-memory source instead of NewFS
-	Differ int          `json:"differ,omitempty"` // fsutil.DiffType
-	Notify bool         `json:"notify,omitempty"`
-	Unpriv bool         `json:"unpriv,omitempty"` // receiver (and whole transfer) runs as uid 1000
-	FilterUID bool      `json:"filteruid,omitempty"` // source owned by 4242:4242, receiver Filter maps ownership to 0:0
-	MemEOF bool         `json:"memeof,omitempty"` // in-memory source whose readers return the last bytes together with io.EOF
+	Src       fsmodel.Tree `json:"src"`
+	Dst       fsmodel.Tree `json:"dst"`
+	Merge     bool         `json:"merge,omitempty"`
+	Mem       bool         `json:"mem,omitempty"`    // synthetic in-memory source instead of NewFS
+	Differ    int          `json:"differ,omitempty"` // fsutil.DiffType
+	Notify    bool         `json:"notify,omitempty"`
+	Unpriv    bool         `json:"unpriv,omitempty"`    // receiver (and whole transfer) runs as uid 1000
+	FilterUID bool         `json:"filteruid,omitempty"` // source owned by 4242:4242, receiver Filter maps ownership to 0:0
+	MemEOF    bool         `json:"memeof,omitempty"`    // in-memory source whose readers return the last bytes together with io.EOF
+	// MemResize: in-memory source whose files changed size between listing and reading: readers deliver
+	// len+MemResize bytes (negative: the tail is missing; -1<<30: nothing at all)
+	MemResize int `json:"memresize,omitempty"`
 }
 
 func (c SyncCase) String() string {
-	return fmt.Sprintf("src=%s dst=%s merge=%v mem=%v differ=%d", c.Src, c.Dst, c.Merge, c.Mem, c.Differ)
+	s := fmt.Sprintf("src=%s dst=%s merge=%v mem=%v differ=%d", c.Src, c.Dst, c.Merge, c.Mem, c.Differ)
+	if c.MemResize != 0 {
+		s += fmt.Sprintf(" source-files-resized-by=%d", c.MemResize)
+	}
+	return s
 }
 
 // SyncObs is everything observable about one transfer.
@@ -95,6 +103,9 @@ func (d *syncDirs) transferFault(c SyncCase, srcTree fsmodel.Tree, fault xfer.Fa
 	if c.Mem {
 		m := memfs.New(srcTree)
 		m.EOFWithData = c.MemEOF
+		if c.MemResize != 0 {
+			m.Resize = func(_ string, data []byte) []byte { return ResizeBytes(data, c.MemResize) }
+		}
 		src = m
 		o.View = srcTree.Clone()
 		o.View.Sort()
@@ -202,4 +213,15 @@ func statString(st *types.Stat) string {
 		return "nil"
 	}
 	return fmt.Sprintf("%s mode=%o %d:%d size=%d mtime=%d link=%q dev=%d,%d", st.Path, st.Mode, st.Uid, st.Gid, st.Size, st.ModTime, st.Linkname, st.Devmajor, st.Devminor)
+}
+
+// ResizeBytes: what a reader delivers of a file that changed size by delta after it was listed.
+func ResizeBytes(data []byte, delta int) []byte {
+	if delta < 0 {
+		if -delta >= len(data) {
+			return nil
+		}
+		return data[:len(data)+delta]
+	}
+	return append(append([]byte{}, data...), bytes.Repeat([]byte{0x5a}, delta)...)
 }
